@@ -161,8 +161,8 @@ var funcSpecs = []funcSpec{
 	{rel: "", name: "(*X25519Identity).String"},
 	{rel: "", name: "(*X25519Identity).Recipient"},
 	{rel: "agessh", name: "(*EncryptedSSHIdentity).Unwrap", abstract: []string{"agessh.sshFingerprint"},
-		opaque: map[string]string{"ssh.PublicKey": "π", "age.Recipient": "ρ", "age.Identity": "ι"},
-		regions: [][2]string{{"k, err := ssh.ParseRawPrivateKeyWithPassphrase", "i.decrypted = decrypted"}}},
+		opaque: map[string]string{"ssh.PublicKey": "π", "ssh.CryptoPublicKey": "π", "crypto.PublicKey": "κ", "interface": "ξ", "age.Recipient": "ρ", "age.Identity": "ι"},
+		regions: [][2]string{{"k, err := ssh.ParseRawPrivateKeyWithPassphrase", "if exp := i.pubKey.(ssh.CryptoPublicKey)"}}},
 	{rel: "", name: "NewScryptRecipient"},
 	{rel: "", name: "(*ScryptRecipient).SetWorkFactor"},
 	{rel: "", name: "NewScryptIdentity"},
@@ -415,6 +415,13 @@ func (c *fctx) leanType(n ast.Node, t types.Type) string {
 }
 
 func leanTypeOf(t types.Type) (string, bool) {
+	// an anonymous interface type with methods (`var pubKey interface{ Equal(x crypto.PublicKey) bool }`): opaque when the
+	// directives say so under the key "interface"
+	if it, ok := t.(*types.Interface); ok && it.NumMethods() > 0 {
+		if v, ok := curOpaque["interface"]; ok {
+			return v, true
+		}
+	}
 	{
 		bt := t
 		if p, ok := bt.(*types.Pointer); ok {
@@ -822,6 +829,22 @@ func (c *fctx) expr(e ast.Expr) string {
 		}
 	}
 	switch x := e.(type) {
+	case *ast.TypeAssertExpr:
+		// x.(T) with x and T opaque and translated to the same type variable: the value itself if it implements T (an
+		// abstract predicate), a panic otherwise — as in Go
+		if x.Type != nil {
+			lx, ok1 := leanTypeOf(c.typeOf(x.X))
+			lt, ok2 := leanTypeOf(c.typeOf(x.Type))
+			nt := namedOf(c.typeOf(x.Type))
+			if ok1 && ok2 && lx == lt && len([]rune(lx)) == 1 && nt != nil {
+				an := "implements_" + nt.Obj().Name()
+				c.useAbstractName(an, "("+an+" : "+lx+" → Bool)")
+				v := c.expr(x.X)
+				return "(← (if (" + an + " " + v + ") then pure " + v + " else throw (Go.Fault.panic 9998)))"
+			}
+		}
+		c.fail(e, "type assertion other than between two interfaces that are the same opaque type here")
+		return ""
 	case *ast.ParenExpr:
 		return c.expr(x.X)
 	case *ast.Ident:
@@ -1337,7 +1360,13 @@ func (c *fctx) call(x *ast.CallExpr) string {
 			if sel, ok := ast.Unparen(x.Fun).(*ast.SelectorExpr); ok {
 				if sn := c.info().Selections[sel]; sn != nil && sn.Kind() == types.MethodVal {
 					if lt, ok := leanTypeOf(sn.Recv()); ok && len([]rune(lt)) == 1 && lt != "α" && lt != "δ" {
+						tname := ""
 						if nt := namedOf(sn.Recv()); nt != nil {
+							tname = nt.Obj().Name()
+						} else if _, isIface := sn.Recv().(*types.Interface); isIface {
+							tname = "interface" // an anonymous interface type
+						}
+						if tname != "" {
 							msig := o.Type().(*types.Signature)
 							var ps, rs []string
 							ps = append(ps, lt)
@@ -1347,7 +1376,7 @@ func (c *fctx) call(x *ast.CallExpr) string {
 							for i := 0; i < msig.Results().Len(); i++ {
 								rs = append(rs, c.leanType(x, msig.Results().At(i).Type()))
 							}
-							an := nt.Obj().Name() + "_" + o.Name()
+							an := tname + "_" + o.Name()
 							world := c.spec != nil && c.spec.world
 							if world {
 								c.useAbstractName(an, fmt.Sprintf("(%s : %s → τ → Go.M %s)", an, strings.Join(ps, " → "), tupleType(append(append([]string{}, rs...), "τ"))))
